@@ -156,7 +156,10 @@ def _direction_variant(spec, rid):
   region and the direction comes from the region's own specified value (or is absent): every other combination
   (writing mode or direction supplied by an initial value or by an animation step) is not compared."""
   reg = next((r for r in spec.get("regions") or [] if r["id"] == rid), {})
-  if any(a[0] in ("WritingMode", "Direction") for a in reg.get("an") or []):
+  # (since wave 9) a direction given by an animation step on the region is compared: an active step is a value of its own
+  # and wins over the implied direction; a writing mode that is itself animated or initial, and a direction that is an
+  # initial value (does it count as 'specified'?), stay outside the comparison
+  if any(a[0] == "WritingMode" for a in reg.get("an") or []):
     return True
   if any(i[0] in ("WritingMode", "Direction") for i in spec.get("init") or []):
     return True
